@@ -17,7 +17,9 @@ SReg  == {"r1", "r2"}
 PReg  == {"p1", "p2"}
 KReg  == {"k1", "k2"}                 \* scalar registers (Scalar.Pick, C02: value determined by the bytes drawn)
 Seeds == {"A", "B"}
-Kinds == {"xof", "zeros", "ones"}     \* zeros/ones: adversarial prefix forcing retries, then the seeded XOF
+\* zeros/ones: adversarial constant prefix forcing retries; mod*/ord*: the first candidate drawn is exactly
+\* the field modulus / the group order (big- or little-endian); then the seeded XOF
+Kinds == {"xof", "zeros", "ones", "modBE", "modLE", "ordBE", "ordLE"}
 DLens == {"0", "1", "Lm1", "L", "Lp1", "Lp8"}   \* data length relative to EmbedLen
 DConts == {"z", "f", "r"}             \* all-00, all-ff, pseudo-random content
 Msgs  == {"m0", "m1", "m64", "m300"}
